@@ -167,7 +167,8 @@ def run(tier, seed, replay):
         half = 6 if tier == "quick" else 60
         for g in [g for g in okg if specs[g]["what"][0] == "random"][:half] + [g for g in okg if specs[g]["what"][0] != "random"][::max(1, len(okg) // (3 * half))][:half]:
             for extra, j in ((["--stub=false"], g), (["--stub=true"], g + 1), (["--stub=1"], g + 1), (["--stub=0"], g), (["--stub", "--stub=false"], g)):
-                sps.append(dict(specs[g], id="sp%d" % len(sps), flags={}, extra_args=extra, keep_out=True))
+                # (the other flags of the configuration stay as they are: only the spelling of --stub changes)
+                sps.append(dict(specs[g], id="sp%d" % len(sps), flags={k_: v_ for k_, v_ in (specs[g].get("flags") or {}).items() if k_ != "stub"}, extra_args=extra, keep_out=True))
                 ref.append(j)
         for sp_, so, j in zip(sps, build.gx_run(tooldir, sps), ref):
             if so.get("exit") != obs[j].get("exit") or so["out_after"].get("hash") != obs[j]["out_after"].get("hash"):
